@@ -1,10 +1,9 @@
 (* The decidable premises of the task-level C09 / C06 theorems (Properties/C09tasks.v) that are NOT
    about identifiers, stated on the task itself.
 
-   [strong_task_ok t]   the programs are in the image of the ASP parser as far as tau* needs it:
+   [strong_task_ok t]   the programs are in the image of the ASP parser as far as tau* / mu need it:
                         every variable has a non-empty name (the parser guarantees it:
-                        C03_parsed_program_vars_named); the representation is tau* (for mu only
-                        the conditional theorem C09_strong_sentences_partial is proved).
+                        C03_parsed_programs_named); both representations (tau-star, mu).
    [ext_task_ok t]      the same for the program(s); every formula of a SPECIFICATION and every
                         ASSUMPTION of the user guide is a sentence ([closed_formula]: anthem does
                         not check or close them - finding C09-free-variable) without empty
@@ -22,8 +21,7 @@ Definition sentence (f : formula) : bool := closed_formula f && cmps_nonempty f.
 Definition in_image (f : formula) : bool := binders_nonempty f && cmps_nonempty f.
 
 Definition strong_task_ok (t : strong_task) : bool :=
-  match st_repr t with ReprTauStar => true | ReprMu => false end
-  && program_named (st_left t) && program_named (st_right t).
+  program_named (st_left t) && program_named (st_right t).
 
 Definition ext_task_ok (t : ext_task) : bool :=
   program_named (et_program t)
